@@ -264,7 +264,10 @@ def r2(R, m):
                     "parameter %s is not loaded from component %s of the selected grain's translation" % (name, AX.get(name)))
     R.check(set(seen) == set(AX), "C09.R2", REL, fn.lineno, "%s.set_translation" % CLS, "writes %s" % sorted(seen),
             "set_translation does not install all of t_x, t_y, t_z")
-    rp = m.func("%s.refinepositions" % CLS)
+    rp = pyfacts.unroll_literal_loops(pyfacts.clone(m.func("%s.refinepositions" % CLS)))   # loops over ('t_x', 't_y', 't_z') read as their three bodies
+    for n_ in ast.walk(rp):
+        for c_ in ast.iter_child_nodes(n_):
+            c_._parent = n_
     cfg = pyfacts.PyCFG(rp)
     mins = [c for c in ast.walk(rp) if isinstance(c, ast.Call) and isinstance(c.func, ast.Attribute) and c.func.attr == "minimize"]
     R.shape(len(mins) == 1, "C09.R2", REL, "%s.refinepositions" % CLS, "one call of <simplex>.minimize")
@@ -584,7 +587,10 @@ def r6(R, m):
         R.check(isinstance(par, ast.Assign) and flat(par.targets[0]) == "self.npks,self.avg_drlv2", "C09.R6", REL, c.lineno, "%s.refine" % CLS,
                 src(par)[:60], "count and mean error are not stored as (self.npks, self.avg_drlv2)")
     rets = [r for r in ast.walk(fn) if isinstance(r, ast.Return)]
-    R.check(len(rets) == 1 and rets[0].value is not None and nows(src(rets[0].value)) == mat, "C09.R6", REL, fn.lineno, "%s.refine" % CLS, "return %s" % mat,
+    # every return hands back the working matrix, and comes after the fit (an early 'if quiet: return mat' before the report is the same)
+    cfg6 = pyfacts.PyCFG(fn)
+    after_fit = all(any(cfg6.dominates(cfg6.node_of(pyfacts.containing_stmt(c)), cfg6.node_of(r)) for c in calls) for r in rets if cfg6.node_of(r) is not None)
+    R.check(len(rets) >= 1 and all(r.value is not None and nows(src(r.value)) == mat for r in rets) and after_fit, "C09.R6", REL, fn.lineno, "%s.refine" % CLS, "return %s" % mat,
             "the refined matrix is not what is returned")
     # the score is refreshed after the last symmetry projection? (second call after first projection) - count pattern
     g = m.func("%s.gof" % CLS)
@@ -655,8 +661,17 @@ def r8(R, m):
     init = gm.func("grain.__init__")
     sets = [a for a in ast.walk(init) if isinstance(a, ast.Assign) and any(src(t) == "self.translation" for t in a.targets) and src(a.value) != "None"]
     R.shape(len(sets) >= 1, "C09.R8", "ImageD11/grain.py", "grain.__init__", "the assignment of self.translation")
+    # a conditional expression is read as its branches (None if translation is None else np.array(translation, float))
+    flat = []
     for a in sets:
-        v = a.value
+        stack = [a.value]
+        while stack:
+            v_ = stack.pop()
+            if isinstance(v_, ast.IfExp):
+                stack += [v_.body, v_.orelse]
+            elif not (isinstance(v_, ast.Constant) and v_.value is None):
+                flat.append((a, v_))
+    for a, v in flat:
         d = (dotted(v.func) or "") if isinstance(v, ast.Call) else ""
         fresh = False
         if isinstance(v, ast.Call) and d.split(".")[-1] == "array" and not any(k.arg == "copy" and src(k.value) in ("False", "None", "0") for k in v.keywords):
